@@ -197,7 +197,11 @@ var c06Shapes = []string{"none", "where", "distinct", "order_by", "group_by", "j
 	// event-time buffer, several event times per release (json only: the time column is an RFC 3339 string)
 	"watermark_group_by",
 	// a failing expression above a plain GROUP BY subquery: the failure comes back into the group-by's emission loop
-	"expr_over_group_by"}
+	"expr_over_group_by",
+	// the joins other than the inner stream join, with the fault on either side
+	"left_join", "lookup_join",
+	// a failing expression as ORDER BY key
+	"order_by_failing_key"}
 
 // checkC06: one fault per run, injected into the data or the disk under a real
 // file datasource, below a generated query shape. A query that has to consume
@@ -226,7 +230,7 @@ func checkC06(r *Run) {
 		fault = "malformed_row" // encoding/csv has no line limit
 	}
 	faultOnSub := hdr.Chance(1, 2)
-	twoTables := shape == "join" || shape == "in_subquery" || shape == "scalar_subquery"
+	twoTables := shape == "join" || shape == "in_subquery" || shape == "scalar_subquery" || shape == "left_join" || shape == "lookup_join"
 	if !twoTables {
 		faultOnSub = false
 	}
@@ -246,7 +250,7 @@ func checkC06(r *Run) {
 		target = sub
 	}
 	target.bad = posDraw % target.rows
-	if shape == "join" && faultOnSub && kind == "lines" {
+	if (shape == "join" || shape == "left_join" || shape == "lookup_join") && faultOnSub && kind == "lines" {
 		// unoptimised, the filter sits above the join: the failing row must have a join partner to be evaluated
 		target.bad = posDraw % min(nMain, nSub)
 	}
@@ -322,6 +326,24 @@ func checkC06(r *Run) {
 			return fmt.Sprintf("SELECT %s AS gg, COUNT(*) AS c FROM %s%s GROUP BY %s", main.g, main.ref(), where(mWhere), main.g)
 		case "join":
 			return fmt.Sprintf("SELECT %s, %s FROM %s JOIN %s ON %s = %s%s", main.id, sub.id, main.ref(), sub.ref(), main.g, sub.g, where(joinWhere))
+		case "left_join", "lookup_join":
+			kw := map[string]string{"left_join": "LEFT JOIN", "lookup_join": "LOOKUP JOIN"}[shape]
+			// the failing conjunct is wrapped into a subquery of its own table, so that it is evaluated for every
+			// row of that table whatever the join does with it
+			mRef, xRef := main.ref(), sub.ref()
+			if mWhere != "" {
+				mRef = fmt.Sprintf("(SELECT * FROM %s WHERE %s) m", main.ref(), mWhere)
+			}
+			if xWhere != "" {
+				xRef = fmt.Sprintf("(SELECT * FROM %s WHERE %s) x", sub.ref(), xWhere)
+			}
+			return fmt.Sprintf("SELECT %s, %s FROM %s %s %s ON %s = %s", main.id, sub.id, mRef, kw, xRef, main.g, sub.g)
+		case "order_by_failing_key":
+			key := main.id
+			if withPanic && target == main {
+				key = panicTerm(main)
+			}
+			return fmt.Sprintf("SELECT %s FROM %s ORDER BY %s", main.id, main.ref(), key)
 		case "in_subquery":
 			return fmt.Sprintf("SELECT %s FROM %s WHERE %s", main.id, main.ref(), and(mWhere, fmt.Sprintf("%s IN (SELECT %s FROM %s%s)", main.g, sub.g, sub.ref(), where(xWhere))))
 		case "scalar_subquery":
@@ -407,6 +429,16 @@ func checkC06(r *Run) {
 			return oc
 		}
 		produce := func(ctx execution.ProduceContext, rec execution.Record) error {
+			if rec.Retraction {
+				// an outer join takes a NULL-padded row back: drop one earlier occurrence of it
+				for i := len(oc.rows) - 1; i >= 0; i-- {
+					if RowKey(oc.rows[i]) == RowKey(rec.Values) {
+						oc.rows = append(oc.rows[:i:i], oc.rows[i+1:]...)
+						return nil
+					}
+				}
+				return fmt.Errorf("sim: retraction of a row that was never produced: %s", RowString(rec.Values))
+			}
 			oc.rows = append(oc.rows, rec.Values)
 			return nil
 		}
